@@ -154,6 +154,8 @@ static KM genKM(const KMOpt& o)
   KM c;
   GenOpt g = o.g;
   g.selPct = 0;
+  g.naFdataPct = 0; // undefined external drifts are C01's subject
+  g.naFtargPct = 0;
   c.k = genCase(g);
   int n = c.k.n(), nt = c.k.ntarg();
   int mode = 0;
@@ -733,11 +735,13 @@ static void runXvalid(const KM& c0, Ctx& ctx)
 static KM genXvalid()
 {
   KMOpt o;
-  o.g.movingPct = 50;
+  bool moving = G::b();
+  o.g.movingPct = moving ? 100 : 0;
+  if (!moving) o.g.nvarMax = 1; // documented: cross-validation in unique neighbourhood is monovariate, without k-fold
   o.g.nMax = 30;
   o.tselPct = 0;
   KM c = genKM(o);
-  c.op = G::pct(20) ? 1 : 0;
+  c.op = (moving && G::pct(20)) ? 1 : 0;
   return c;
 }
 VERIF_SUB(xvalid, KM, genXvalid, runXvalid);
@@ -821,8 +825,8 @@ static KM genSimtub()
   KM c = genKM(o);
   // structures the turning bands can simulate
   for (auto& s : c.k.st)
-    if (s.type != T_NUGGET && s.type != T_EXPONENTIAL && s.type != T_SPHERICAL && s.type != T_GAUSSIAN && s.type != T_CUBIC && s.type != T_MATERN && s.type != T_STABLE)
-      s.type = T_EXPONENTIAL;
+    if (s.type != T_NUGGET && s.type != T_EXPONENTIAL && s.type != T_SPHERICAL && s.type != T_GAUSSIAN && s.type != T_CUBIC)
+      s.type = T_EXPONENTIAL; // (stable / Matern structures with a small parameter make the band generator allocate GBs: C13's matter)
   c.k.flagVarz = 0;
   return c;
 }
@@ -1168,7 +1172,7 @@ static void runVario(const VarioC& c, Ctx& ctx)
   // the by-sample algorithm (forced for the covariogram) accumulates per first sample without resetting its
   // work arrays (C12's finding bysample:order): its failures carry their own key prefix
   // the Poisson variogram is the only one that uses the stored mean (wrong today: Vario::_getStatistics)
-  std::string V = (c.bySample || c.calc == 8) ? "vario-bysample" : (c.calc == 5 ? "vario-poisson" : "vario");
+  std::string V = (c.calc == 5) ? "vario-poisson" : ((c.bySample || c.calc == 8) ? "vario-bysample" : "vario");
   std::vector<int> keep = keptRows(d, true, 1);
   std::unique_ptr<Db> db1 = buildDb(d);
   Snap before = snapOf(db1.get());
@@ -1913,5 +1917,121 @@ static void runAnam(const AnamC& c, Ctx& ctx)
   ctx.nontrivial((int)keep.size() < d.n() && keep.size() >= 3);
 }
 VERIF_SUB(anam, AnamC, genAnam, runAnam);
+
+// ---------------------------------------------------------------------------- variograms on a grid
+// Cells of a grid cannot be removed: reduced side = the same grid without selection where the masked cells hold
+// TEST for every variable (a masked cell and an undefined cell must contribute the same: nothing).
+struct VGridC
+{
+  int ndim = 2, nvar = 1, calc = 0, npas = 3;
+  std::vector<int> nx;
+  std::vector<double> dx, x0;
+  std::vector<double> z;   // ncell*nvar
+  std::vector<int> sel;    // ncell flags (may be empty)
+  template<class A> void io(A& a) { a("ndim", ndim)("nvar", nvar)("calc", calc)("npas", npas)("nx", nx)("dx", dx)("x0", x0)("z", z)("sel", sel); }
+  int ncell() const
+  {
+    int p = 1;
+    for (int v : nx) p *= v;
+    return p;
+  }
+};
+static VGridC genVGrid()
+{
+  VGridC c;
+  c.ndim = G::pick<int>({1, 2, 2, 3});
+  c.nvar = G::pick<int>({1, 1, 2});
+  int left = 36;
+  for (int d = 0; d < c.ndim; d++)
+  {
+    int n = G::i(d == 0 ? 2 : 1, std::min(8, left));
+    left = std::max(1, left / n);
+    c.nx.push_back(n);
+    c.dx.push_back(G::pick<double>({1., 0.5, 25.}));
+    c.x0.push_back(G::pick<double>({0., 100., -3.5}));
+  }
+  int nc = c.ncell();
+  c.z.resize((size_t)(nc * c.nvar));
+  for (auto& v : c.z) v = G::pct(10) ? NA : G::r(-40, 40, 8);
+  int m = 0;
+  c.sel = genSel(nc, m);
+  c.calc = G::pick<int>({0, 0, 1, 2, 3, 4, 7});
+  c.npas = G::i(1, 4);
+  return c;
+}
+static void runVGrid(const VGridC& c, Ctx& ctx)
+{
+  resetGlobals(c.ndim);
+  debugHook();
+  int nc = c.ncell(), nv = c.nvar;
+  bool anyMasked = false;
+  for (int v : c.sel) anyMasked = anyMasked || v == 0;
+  ctx.label(std::string("calc:") + kCalcNames[c.calc]);
+  ctx.label("ndim:" + std::to_string(c.ndim));
+  ctx.label(c.sel.empty() ? "sel:none" : (anyMasked ? "sel:masking" : "sel:all-active"));
+  ctx.sig = Hash().add(c.ndim).add(c.nvar).add(c.calc).add(c.npas).add(nc < 6 ? nc : (nc < 20 ? 6 : 7)).add(anyMasked ? 1 : 0).h;
+  std::string V = std::string("vario-grid:") + (anyMasked ? "sel" : "nomask");
+  auto mk = [&](bool reduced) {
+    VectorInt nx(c.nx.begin(), c.nx.end());
+    VectorDouble dx(c.dx.begin(), c.dx.end()), x0(c.x0.begin(), c.x0.end());
+    std::unique_ptr<DbGrid> g(DbGrid::create(nx, dx, x0));
+    for (int v = 0; v < nv; v++)
+    {
+      VectorDouble col((size_t)nc);
+      for (int i = 0; i < nc; i++) col[i] = (reduced && !c.sel.empty() && !c.sel[(size_t)i]) ? NA : c.z[(size_t)(i * nv + v)];
+      g->addColumns(col, "z" + std::to_string(v + 1), ELoc::Z, v);
+    }
+    if (!reduced && !c.sel.empty())
+    {
+      VectorDouble sv(c.sel.begin(), c.sel.end());
+      g->addColumns(sv, "sel", ELoc::SEL, 0);
+    }
+    return g;
+  };
+  std::unique_ptr<DbGrid> g1 = mk(false), g2 = mk(true);
+  Snap before = snapOf(g1.get());
+  auto comp = [&](DbGrid* g) {
+    std::unique_ptr<VarioParam> vp(VarioParam::createMultipleFromGrid(g, c.npas));
+    ctx.at(std::string("Vario(grid):") + kCalcNames[c.calc]);
+    return std::unique_ptr<Vario>(Vario::computeFromDb(*vp, g, calcOf(c.calc)));
+  };
+  std::unique_ptr<Vario> v1 = comp(g1.get()), v2 = comp(g2.get());
+  std::string what;
+  if (!snapUnchanged(before, g1.get(), what)) { ctx.fail(V + ":data-cells", "cells of the grid changed: " + what); return; }
+  if ((v1 == nullptr) != (v2 == nullptr)) { ctx.fail(V + ":error-status", fmt("%s with the masked grid, %s with TEST in the masked cells", v1 ? "succeeds" : "fails", v2 ? "succeeds" : "fails")); return; }
+  if (!v1) { ctx.label("both-refused"); return; }
+  double zs = 0;
+  for (double v : c.z)
+    if (!na(v)) zs = std::max(zs, std::fabs(v));
+  double z2 = std::max(1e-300, zs * zs);
+  if (c.calc == 7) z2 *= z2;
+  if (c.calc == 3) z2 = zs;
+  if (c.calc == 4) z2 = std::sqrt(zs);
+  long npairs = 0;
+  std::string CN = kCalcNames[c.calc];
+  for (int idir = 0; idir < v1->getDirectionNumber(); idir++)
+    for (int iv = 0; iv < nv; iv++)
+      for (int jv = 0; jv <= iv; jv++)
+      {
+        VectorDouble sw1 = v1->getSwVec(idir, iv, jv, false), sw2 = v2->getSwVec(idir, iv, jv, false);
+        VectorDouble gg1 = v1->getGgVec(idir, iv, jv, false, false, false), gg2 = v2->getGgVec(idir, iv, jv, false, false, false);
+        VectorDouble hh1 = v1->getHhVec(idir, iv, jv, false), hh2 = v2->getHhVec(idir, iv, jv, false);
+        if (sw1.size() != sw2.size()) { ctx.fail(V + ":sizes", "numbers of lags differ"); return; }
+        for (size_t l = 0; l < sw1.size(); l++)
+        {
+          if (!(sw1[l] == sw2[l])) { ctx.fail(V + ":sw", CN + fmt(" dir %d var (%d,%d) lag %d: %.15g pairs with the masked grid, %.15g when the masked cells hold TEST", idir, iv, jv, (int)l, sw1[l], sw2[l])); return; }
+          if (!na(sw1[l])) npairs += (long)sw1[l];
+          if (!same(hh1[l], hh2[l], 100.)) { ctx.fail(V + ":hh", CN + fmt(" dir %d var (%d,%d) lag %d: distance %.15g / %.15g", idir, iv, jv, (int)l, hh1[l], hh2[l])); return; }
+          if (!same(gg1[l], gg2[l], z2)) { ctx.fail(V + ":gg", CN + fmt(" dir %d var (%d,%d) lag %d: value %.15g with the masked grid, %.15g when the masked cells hold TEST", idir, iv, jv, (int)l, gg1[l], gg2[l])); return; }
+        }
+      }
+  for (int iv = 0; iv < nv; iv++)
+    for (int jv = 0; jv <= iv; jv++)
+      if (!same(v1->getVar(iv, jv), v2->getVar(iv, jv), zs * zs)) { ctx.fail(V + ":var", CN + fmt(" variance (%d,%d): %.15g / %.15g", iv, jv, v1->getVar(iv, jv), v2->getVar(iv, jv))); return; }
+  for (int iv = 0; iv < nv; iv++)
+    if (!same(v1->getMean(iv), v2->getMean(iv), zs)) { ctx.fail(std::string("vario-mean:grid-") + (anyMasked ? "sel" : "nomask"), CN + fmt(" mean of variable %d: %.15g / %.15g", iv, v1->getMean(iv), v2->getMean(iv))); return; }
+  ctx.nontrivial(anyMasked && npairs > 0);
+}
+VERIF_SUB(vario_grid, VGridC, genVGrid, runVGrid);
 
 VERIF_MAIN()
